@@ -163,11 +163,13 @@ Inductive set_site :=
 | SetDepsIncludes     (* lang/_common.py generate_include_filepart_list: for dt in dep_types.composite_types *)
 | SetLangMap          (* lang/__init__.py _new_language_map: for language_name in set(...) - set(...) *)
 | SetTemplateFiles    (* jinja/loaders.py get_templates: files (only through sorted()) *)
+| SetListingDeps      (* cli/runners.py _dependency_source_files: sorted(set of paths), --list-inputs only *)
+| SetPyAliases        (* lang/py filter_newest_minor_version_aliases: sorted({(short_name, major)}) -- plain sorted of tuples *)
 | SetUnknown.
 
 Definition site_no (s : set_site) : N :=
   match s with SetNsIndex => 1 | SetNestedIter => 2 | SetNestedBfs => 3 | SetDepsIncludes => 4
-             | SetLangMap => 5 | SetTemplateFiles => 6 | SetUnknown => 0 end.
+             | SetLangMap => 5 | SetTemplateFiles => 6 | SetListingDeps => 8 | SetPyAliases => 9 | SetUnknown => 0 end.
 
 (* sites where this model applies the oracle, or whose result is provably a function of the set alone *)
 Definition set_site_modelled (s : set_site) : bool :=
@@ -176,6 +178,7 @@ Definition set_site_modelled (s : set_site) : bool :=
   | SetNestedBfs => true     (* looks a key up in disjoint dicts: at most one namespace holds the type, see bfs_* in ReproThm *)
   | SetLangMap => true       (* inserts distinct keys into a dict that is only read by key (ln.<language>) *)
   | SetTemplateFiles => true
+  | SetListingDeps | SetPyAliases => false   (* acceptable only through a total sorted() *)
   | SetUnknown => false
   end.
 
@@ -195,57 +198,6 @@ Inductive akind :=
 Inductive tgroup := GType | GNs | GSupport.
 
 Record site := { s_lang : lang; s_group : tgroup; s_kind : akind; s_gated : bool; s_line : N }.
-
-Record src_facts := {
-  sf_inc_sorted : bool;        (* IncludeGenerator returns sorted(...) when sort, filter default sort=True (c, cpp) *)
-  sf_imports_sorted : bool;    (* py filter_imports returns sorted(...) by default *)
-  sf_templates_sorted : bool;  (* DSDLTemplateLoader.get_templates returns sorted(files) *)
-  sf_platform_gated : bool;    (* _create_platform_version: everything but python_version under `if embed_auditing_info` *)
-  sf_clock_only_now_utc : bool;(* the only clock read is `self._env.now_utc = datetime.datetime.utcnow()` *)
-  sf_audit_threaded : bool;    (* generate_all passes embed_auditing_info to update_nunavut_globals, which sets the flag *)
-  sf_config_cmdline_order : bool; (* ArgparseRunner._create_language_context hands the --configuration files to the builder in
-                                     command-line order (no sorted()/set on the user-supplied paths) *)
-  sf_outputs_always_written : bool; (* generate_all/_generate_header/_copy_header/_generate_code never skip a file depending on the
-                                       state of the output directory (no exists()/stat()/mtime test, no continue) *)
-  sf_nested_sorted : bool;     (* Namespace.get_nested_namespaces returns sorted(set, key = the attribute __eq__ compares) and is the
-                                  only iteration of _nested_namespaces (9b93945) *)
-  sf_natsort_total : bool;     (* html _natural_sort: the sort key ends in the exact name (ties broken), see gen_sorts *)
-  sf_template_sets_pure : bool;(* DSDLTemplateLoader.get_template_sets reports package names/versions only, no file-system path *)
-  sf_gzip_mtime_fixed : bool;  (* py filter_pickle: gzip.compress(..., mtime=0) -- the gzip header carries no clock (F-PY-GZIP) *)
-}.
-
-Definition src_facts_ok (f : src_facts) : bool :=
-  sf_inc_sorted f && sf_imports_sorted f && sf_templates_sorted f && sf_platform_gated f
-  && sf_clock_only_now_utc f && sf_audit_threaded f && sf_gzip_mtime_fixed f
-  && sf_natsort_total f && sf_template_sets_pure f && sf_nested_sorted f
-  && sf_config_cmdline_order f && sf_outputs_always_written f.
-
-Definition kind_eqb (a b : akind) : bool :=
-  match a, b with
-  | KClock, KClock | KAbsSrc, KAbsSrc | KPickle, KPickle | KCwd, KCwd | KPlatform, KPlatform
-  | KNsIter, KNsIter | KIncUnsorted, KIncUnsorted | KTmplSets, KTmplSets => true
-  | _, _ => false
-  end.
-Definition group_eqb (a b : tgroup) : bool :=
-  match a, b with GType, GType | GNs, GNs | GSupport, GSupport => true | _, _ => false end.
-
-(* does language l have an ungated use of kind k ? *)
-Definition ungated (tbl : list site) (l : lang) (k : akind) : bool :=
-  existsb (fun s => lang_eqb (s_lang s) l && kind_eqb (s_kind s) k && negb (s_gated s)) tbl.
-
-(* a use site is harmless when it is gated, or when what it shows is not ambient *)
-Definition site_ok (f : src_facts) (s : site) : bool :=
-  s_gated s || match s_kind s with KPlatform => sf_platform_gated f | KTmplSets => sf_template_sets_pure f | _ => false end.
-
-(* the one ungated ambient use the unchanged tree has (known finding F-PY-PICKLEPATH) *)
-Definition is_py_pickle (s : site) : bool :=
-  lang_eqb (s_lang s) LPy && kind_eqb (s_kind s) KPickle && group_eqb (s_group s) GType.
-
-Definition lang_clean (f : src_facts) (tbl : list site) (l : lang) : bool :=
-  forallb (fun s => negb (lang_eqb (s_lang s) l) || site_ok f s) tbl.
-
-Definition lang_clean_but_pickle (f : src_facts) (tbl : list site) (l : lang) : bool :=
-  forallb (fun s => negb (lang_eqb (s_lang s) l) || site_ok f s || is_py_pickle s) tbl.
 
 (* sorted()/list.sort() calls that take a key= : canonical only if the key has a tie-breaker (SortKeyed fact) *)
 Inductive sort_site :=
@@ -278,6 +230,91 @@ Inductive read_site :=
 | RdUnknown.
 Definition read_site_modelled (r : read_site) : bool :=
   match r with RdUnknown => false | _ => true end.
+
+(* the scanner's inventories (regenerated): every iteration over a set, every ambient read, every ordering of user-supplied
+   paths, every keyed sort, every function that reaches templates (filters/tests/uses-queries/globals), every file a template
+   includes.  The model CONSULTS them: a row that is not accounted for leaks the environment into every generated file
+   ([unknown_leak] below), so the main theorem needs [tables_ok] and a wrong row changes what it says. *)
+Record aux_tables := {
+  t_set_iters : list (set_site * bool * bool);      (* site, goes through sorted(), that sort has no key or a total key *)
+  t_reads : list (read_kind * read_site);
+  t_path_sorts : list path_sort_site;
+  t_sorts : list (sort_site * bool);                (* sorted(key=...): key is total *)
+  t_filters : list (N * bool);                      (* function reaching templates (index), body free of unaccounted ambient reads *)
+  t_includes : list (lang * bool);                  (* file named by include/import/extends/from: found and scanned *)
+  t_scanned : list (lang * N);                      (* per language: number of template files scanned *)
+}.
+Definition no_tables : aux_tables :=
+  {| t_set_iters := []; t_reads := []; t_path_sorts := []; t_sorts := []; t_filters := []; t_includes := []; t_scanned := [] |}.
+
+Record src_facts := {
+  sf_inc_sorted : bool;        (* IncludeGenerator returns sorted(...) when sort, filter default sort=True (c, cpp) *)
+  sf_imports_sorted : bool;    (* py filter_imports returns sorted(...) by default *)
+  sf_templates_sorted : bool;  (* DSDLTemplateLoader.get_templates returns sorted(files) *)
+  sf_platform_gated : bool;    (* _create_platform_version: everything but python_version under `if embed_auditing_info` *)
+  sf_clock_only_now_utc : bool;(* the only clock read is `self._env.now_utc = datetime.datetime.utcnow()` *)
+  sf_audit_threaded : bool;    (* generate_all passes embed_auditing_info to update_nunavut_globals, which sets the flag *)
+  sf_config_cmdline_order : bool; (* ArgparseRunner._create_language_context hands the --configuration files to the builder in
+                                     command-line order (no sorted()/set on the user-supplied paths) *)
+  sf_outputs_always_written : bool; (* generate_all/_generate_header/_copy_header/_generate_code never skip a file depending on the
+                                       state of the output directory (no exists()/stat()/mtime test, no continue) *)
+  sf_nested_sorted : bool;     (* Namespace.get_nested_namespaces returns sorted(set, key = the attribute __eq__ compares) and is the
+                                  only iteration of _nested_namespaces (9b93945) *)
+  sf_natsort_total : bool;     (* html _natural_sort: the sort key ends in the exact name (ties broken), see gen_sorts *)
+  sf_template_sets_pure : bool;(* DSDLTemplateLoader.get_template_sets reports package names/versions only, no file-system path *)
+  sf_tables : aux_tables;
+  sf_gzip_mtime_fixed : bool;  (* py filter_pickle: gzip.compress(..., mtime=0) -- the gzip header carries no clock (F-PY-GZIP) *)
+}.
+
+Definition set_iter_ok (x : set_site * bool * bool) : bool :=
+  let '(s, srt, total) := x in (srt && total) || set_site_modelled s.
+Definition all_langs : list lang := [LC; LCpp; LPy; LHtml].
+Definition tables_ok (t : aux_tables) : bool :=
+  forallb set_iter_ok (t_set_iters t)
+  && forallb (fun x => read_site_modelled (snd x)) (t_reads t)
+  && forallb path_sort_modelled (t_path_sorts t)
+  && forallb (fun x : sort_site * bool => snd x) (t_sorts t)
+  && forallb (fun x : N * bool => snd x) (t_filters t)
+  && forallb (fun x : lang * bool => snd x) (t_includes t).
+(* the scan is not vacuous: every language had template files to look at, and functions reaching templates were found *)
+Definition scan_nonvacuous (t : aux_tables) : bool :=
+  forallb (fun l => existsb (fun x => lang_eqb (fst x) l && (0 <? snd x)) (t_scanned t)) all_langs
+  && negb (match t_filters t with [] => true | _ => false end).
+
+Definition src_facts_ok (f : src_facts) : bool :=
+  sf_inc_sorted f && sf_imports_sorted f && sf_templates_sorted f && sf_platform_gated f
+  && sf_clock_only_now_utc f && sf_audit_threaded f && sf_gzip_mtime_fixed f
+  && sf_natsort_total f && sf_template_sets_pure f && sf_nested_sorted f
+  && sf_config_cmdline_order f && sf_outputs_always_written f && tables_ok (sf_tables f).
+
+Definition kind_eqb (a b : akind) : bool :=
+  match a, b with
+  | KClock, KClock | KAbsSrc, KAbsSrc | KPickle, KPickle | KCwd, KCwd | KPlatform, KPlatform
+  | KNsIter, KNsIter | KIncUnsorted, KIncUnsorted | KTmplSets, KTmplSets => true
+  | _, _ => false
+  end.
+Definition group_eqb (a b : tgroup) : bool :=
+  match a, b with GType, GType | GNs, GNs | GSupport, GSupport => true | _, _ => false end.
+
+(* does language l have an ungated use of kind k ? *)
+Definition ungated (tbl : list site) (l : lang) (k : akind) : bool :=
+  existsb (fun s => lang_eqb (s_lang s) l && kind_eqb (s_kind s) k && negb (s_gated s)) tbl.
+
+(* a use site is harmless when it is gated, or when what it shows is not ambient *)
+Definition site_ok (f : src_facts) (s : site) : bool :=
+  s_gated s || match s_kind s with KPlatform => sf_platform_gated f | KTmplSets => sf_template_sets_pure f | _ => false end.
+
+(* the one ungated ambient use the unchanged tree has (known finding F-PY-PICKLEPATH) *)
+Definition is_py_pickle (s : site) : bool :=
+  lang_eqb (s_lang s) LPy && kind_eqb (s_kind s) KPickle && group_eqb (s_group s) GType.
+
+Definition lang_clean (f : src_facts) (tbl : list site) (l : lang) : bool :=
+  forallb (fun s => negb (lang_eqb (s_lang s) l) || site_ok f s) tbl.
+
+Definition lang_clean_but_pickle (f : src_facts) (tbl : list site) (l : lang) : bool :=
+  forallb (fun s => negb (lang_eqb (s_lang s) l) || site_ok f s || is_py_pickle s) tbl.
+
+
 
 (* ---------------------------------------------------------------------------------------------- *)
 (* the run                                                                                         *)
@@ -319,6 +356,27 @@ Record audit := { a_clock : N; a_abs : path }.
 (* header lines that show ambient data *)
 Inductive hval := HClock (t : N) | HPath (p : path) | HOpt (v : option N).
 
+(* What an inventory row that is NOT accounted for does in the model: it shows the corresponding piece of the environment in
+   every generated file (worst case).  Accounted-for rows contribute nothing. *)
+Definition order_probe (e : env) (site : N) : option hval :=
+  Some (HPath (e_shuffle e _ site (fun x => x) [[48]; [49]])).
+Definition leak_of_read (e : env) (x : read_kind * read_site) : list (option hval) :=
+  if read_site_modelled (snd x) then []
+  else match fst x with
+       | RClock => [Some (HClock (e_clock e))]
+       | RCwd => [Some (HPath (e_cwd e))]
+       | _ => [Some (HPath (e_abs e))]
+       end.
+Definition leak_all (e : env) : list (option hval) :=
+  [Some (HClock (e_clock e)); Some (HPath (e_cwd e)); Some (HPath (e_abs e)); order_probe e 0].
+Definition unknown_leak (t : aux_tables) (e : env) : list (option hval) :=
+  flat_map (fun x => if set_iter_ok x then [] else [order_probe e 10]) (t_set_iters t)
+  ++ flat_map (leak_of_read e) (t_reads t)
+  ++ flat_map (fun x => if path_sort_modelled x then [] else [Some (HPath (e_cwd e))]) (t_path_sorts t)
+  ++ flat_map (fun x : sort_site * bool => if snd x then [] else [order_probe e 11]) (t_sorts t)
+  ++ flat_map (fun x : N * bool => if snd x then [] else leak_all e) (t_filters t)         (* an unreviewed filter may read anything *)
+  ++ flat_map (fun x : lang * bool => if snd x then [] else leak_all e) (t_includes t).       (* so may an included file nobody scanned *)
+
 (* spelling of a file relative to a working directory (os.path.relpath): `..` for every remaining cwd component *)
 Fixpoint strip_common (a b : path) : path * path :=
   match a, b with
@@ -345,12 +403,18 @@ Section Run.
   Variable sf : src_facts.
   Variable tbl : list site.
 
-  (* the template body: sees the environment only through the audit view, the item, the options, and (for
-     namespace pages) the nested namespaces in the order the template iterates them *)
-  Variable render : option audit -> cfg -> item -> list nsname -> B.
+  (* the template body as the real engine runs it: it is handed the whole environment.  That it LOOKS only at [body_view]
+     (the audit view, and whatever the inventories say is unaccounted for) is a named premise of the theorems:
+     [render_sees_only_body_view]. *)
+  Variable render : env -> cfg -> item -> list nsname -> B.
 
   Definition audit_view (e : env) (c : cfg) : option audit :=
     if c_embed_audit c then Some {| a_clock := e_clock e; a_abs := e_abs e |} else None.
+
+  Definition body_view (e : env) (c : cfg) : option audit * list (option hval) :=
+    (audit_view e c, unknown_leak (sf_tables sf) e).
+  Definition render_sees_only_body_view : Prop :=
+    forall e1 e2 c it v, body_view e1 c = body_view e2 c -> render e1 c it v = render e2 c it v.
 
   Definition loop2_order (e : env) (I : list tydecl) : list nsname :=
     e_shuffle e _ (site_no SetNsIndex) ns_str (ns_index I).
@@ -444,6 +508,7 @@ Section Run.
   Definition header (e : env) (c : cfg) (it : item) : list (option hval) :=
     map (eval_site e c it)
         (filter (fun s => lang_eqb (s_lang s) (c_lang c) && group_eqb (s_group s) (group_of it)) tbl)
+    ++ unknown_leak (sf_tables sf) e
     ++ match c_config_files c with [] => [] | _ => [Some (HOpt (eff_option e c))] end.
 
   (* what a namespace page's template sees when it iterates nested namespaces *)
@@ -466,7 +531,7 @@ Section Run.
                   | ITy d => if uses_includes (c_lang c) then include_list e c d else []
                   | _ => []
                   end;
-        fc_body := render (audit_view e c) c it (nested_view e c I it) |}).
+        fc_body := render e c it (nested_view e c I it) |}).
 
   (* the sequence of (relative path, content) writes of one run *)
   Definition writes (e : env) (c : cfg) (I : list tydecl) : list (path * fcontent) :=
@@ -550,7 +615,7 @@ Definition fc_eqb (a b : fcontent unit) : bool :=
 Definition ofc_eqb (a b : option (fcontent unit)) : bool :=
   match a, b with Some x, Some y => fc_eqb x y | None, None => true | _, _ => false end.
 
-Definition render_unit : option audit -> cfg -> item -> list nsname -> unit := fun _ _ _ _ => tt.
+Definition render_unit : env -> cfg -> item -> list nsname -> unit := fun _ _ _ _ => tt.
 (* the audit view reaches the body: with auditing on, a body that prints it differs when the view differs *)
 Definition audit_eqb (a b : option audit) : bool :=
   match a, b with
@@ -604,29 +669,35 @@ Definition tbl_gated_only : list site :=
 
 Definition facts_all_true : src_facts :=
   {| sf_inc_sorted := true; sf_imports_sorted := true; sf_templates_sorted := true; sf_platform_gated := true;
-     sf_clock_only_now_utc := true; sf_audit_threaded := true; sf_config_cmdline_order := true; sf_outputs_always_written := true; sf_nested_sorted := true; sf_natsort_total := true; sf_template_sets_pure := true; sf_gzip_mtime_fixed := true |}.
+     sf_clock_only_now_utc := true; sf_audit_threaded := true; sf_config_cmdline_order := true; sf_outputs_always_written := true; sf_nested_sorted := true; sf_natsort_total := true; sf_template_sets_pure := true; sf_gzip_mtime_fixed := true; sf_tables := no_tables |}.
 Definition facts_natsort_ties : src_facts :=
   {| sf_inc_sorted := true; sf_imports_sorted := true; sf_templates_sorted := true; sf_platform_gated := true;
      sf_clock_only_now_utc := true; sf_audit_threaded := true; sf_config_cmdline_order := true; sf_outputs_always_written := true; sf_nested_sorted := false; sf_natsort_total := false; sf_template_sets_pure := true;
-     sf_gzip_mtime_fixed := true |}.
+     sf_gzip_mtime_fixed := true; sf_tables := no_tables |}.
 Definition facts_tmplsets_paths : src_facts :=
   {| sf_inc_sorted := true; sf_imports_sorted := true; sf_templates_sorted := true; sf_platform_gated := true;
      sf_clock_only_now_utc := true; sf_audit_threaded := true; sf_config_cmdline_order := true; sf_outputs_always_written := true; sf_nested_sorted := true; sf_natsort_total := true; sf_template_sets_pure := false;
-     sf_gzip_mtime_fixed := true |}.
+     sf_gzip_mtime_fixed := true; sf_tables := no_tables |}.
 Definition tbl_tmplsets : list site :=
   [ {| s_lang := LCpp; s_group := GType; s_kind := KTmplSets; s_gated := false; s_line := 34 |} ].
 Definition facts_config_sorted : src_facts :=
   {| sf_inc_sorted := true; sf_imports_sorted := true; sf_templates_sorted := true; sf_platform_gated := true;
      sf_clock_only_now_utc := true; sf_audit_threaded := true; sf_config_cmdline_order := false; sf_outputs_always_written := true;
-     sf_nested_sorted := true; sf_natsort_total := true; sf_template_sets_pure := true; sf_gzip_mtime_fixed := true |}.
+     sf_nested_sorted := true; sf_natsort_total := true; sf_template_sets_pure := true; sf_gzip_mtime_fixed := true; sf_tables := no_tables |}.
 Definition facts_support_kept : src_facts :=
   {| sf_inc_sorted := true; sf_imports_sorted := true; sf_templates_sorted := true; sf_platform_gated := true;
      sf_clock_only_now_utc := true; sf_audit_threaded := true; sf_config_cmdline_order := true; sf_outputs_always_written := false;
-     sf_nested_sorted := true; sf_natsort_total := true; sf_template_sets_pure := true; sf_gzip_mtime_fixed := true |}.
+     sf_nested_sorted := true; sf_natsort_total := true; sf_template_sets_pure := true; sf_gzip_mtime_fixed := true; sf_tables := no_tables |}.
+Definition facts_unknown_read : src_facts :=
+  {| sf_inc_sorted := true; sf_imports_sorted := true; sf_templates_sorted := true; sf_platform_gated := true;
+     sf_clock_only_now_utc := true; sf_audit_threaded := true; sf_config_cmdline_order := true; sf_outputs_always_written := true;
+     sf_nested_sorted := true; sf_natsort_total := true; sf_template_sets_pure := true; sf_gzip_mtime_fixed := true;
+     sf_tables := {| t_set_iters := []; t_reads := [(RAbsPath, RdUnknown)]; t_path_sorts := []; t_sorts := [];
+                     t_filters := []; t_includes := []; t_scanned := [] |} |}.
 Definition facts_nested_unsorted : src_facts :=
   {| sf_inc_sorted := true; sf_imports_sorted := true; sf_templates_sorted := true; sf_platform_gated := true;
      sf_clock_only_now_utc := true; sf_audit_threaded := true; sf_config_cmdline_order := true; sf_outputs_always_written := true; sf_nested_sorted := false; sf_natsort_total := true;
-     sf_template_sets_pure := true; sf_gzip_mtime_fixed := true |}.
+     sf_template_sets_pure := true; sf_gzip_mtime_fixed := true; sf_tables := no_tables |}.
 Definition facts_inc_unsorted : src_facts :=
   {| sf_inc_sorted := false; sf_imports_sorted := true; sf_templates_sorted := true; sf_platform_gated := true;
-     sf_clock_only_now_utc := true; sf_audit_threaded := true; sf_config_cmdline_order := true; sf_outputs_always_written := true; sf_nested_sorted := true; sf_natsort_total := true; sf_template_sets_pure := true; sf_gzip_mtime_fixed := true |}.
+     sf_clock_only_now_utc := true; sf_audit_threaded := true; sf_config_cmdline_order := true; sf_outputs_always_written := true; sf_nested_sorted := true; sf_natsort_total := true; sf_template_sets_pure := true; sf_gzip_mtime_fixed := true; sf_tables := no_tables |}.
